@@ -44,24 +44,10 @@ fn got(e: Exec) -> Got {
     }
 }
 
-pub static T_VM: std::sync::atomic::AtomicU64 = std::sync::atomic::AtomicU64::new(0);
-pub static T_WASM: std::sync::atomic::AtomicU64 = std::sync::atomic::AtomicU64::new(0);
 fn vm(src: &str, n: u64) -> Got {
-    let t0 = std::time::Instant::now();
-    let r = vm_(src, n);
-    T_VM.fetch_add(t0.elapsed().as_micros() as u64, std::sync::atomic::Ordering::Relaxed);
-    r
-}
-fn vm_(src: &str, n: u64) -> Got {
     got(exec::run_vm(src, &Inputs { kind: 0, scale: 1.0 }, &RunOpts { n, sched: false, want_state: false, want_counts: false, want_trace: false }))
 }
 fn wasm(src: &str, n: u64) -> Got {
-    let t0 = std::time::Instant::now();
-    let r = wasm_(src, n);
-    T_WASM.fetch_add(t0.elapsed().as_micros() as u64, std::sync::atomic::Ordering::Relaxed);
-    r
-}
-fn wasm_(src: &str, n: u64) -> Got {
     got(exec::run_wasm(src, &Inputs { kind: 0, scale: 1.0 }, &RunOpts { n, sched: false, want_state: false, want_counts: false, want_trace: false }))
 }
 
@@ -222,7 +208,7 @@ fn gen_case(g: &mut Gen) -> GenCase {
     let ctx = CTXS[ci];
     let wasm_leg = g.bool(1, 10);
     let n = *g.pick(&[4u64, 1, 2, 8, 3]);
-    let check_alt = g.bool(2, 3);
+    let check_alt = g.bool(1, 2);
     let mut extra = vec![];
     if ctx == "lift" {
         let num = lift_number(g, &mut extra);
@@ -292,8 +278,6 @@ fn finish(staged: &str, alt: Option<&str>, expanded: &str, n: u64, ctx: &str, ex
         return r;
     }
     let o = judge(staged, alt, expanded, n, ctx, expect, wasm_leg);
-    let tv = T_VM.swap(0, std::sync::atomic::Ordering::Relaxed);
-    let tw = T_WASM.swap(0, std::sync::atomic::Ordering::Relaxed);
     if let Some(w) = &o.discard {
         let mut r = CaseResult::discard(w.split(':').next().unwrap_or("discard").to_string());
         r.count(&format!("discard:{w}"), 1);
@@ -313,8 +297,6 @@ fn finish(staged: &str, alt: Option<&str>, expanded: &str, n: u64, ctx: &str, ex
         r.classes.push("wasm-leg-compared".into());
     }
     r.nontrivial = nontrivial || r.is_fail();
-    r.count("TIMING_vm_us", tv);
-    r.count("TIMING_wasm_us", tw);
     if cx.render || r.is_fail() {
         r.render = Some(direct.clone());
     }
@@ -329,7 +311,7 @@ impl Prop for C09 {
     fn spaces(&self, tier: Tier) -> Vec<Space> {
         let what = "staging contexts (quote-splice, macro function, code parameters, macro-stage let of code, numeric recursion, lift_f) x generated stage-1 expressions x use sites";
         match tier {
-            Tier::Quick => vec![Space { name: "gen", size: 3000, exhaustive: false, chunk: 100, case_timeout_s: 30.0, what }],
+            Tier::Quick => vec![Space { name: "gen", size: 2500, exhaustive: false, chunk: 100, case_timeout_s: 30.0, what }],
             Tier::Thorough => vec![Space { name: "gen", size: 100_000, exhaustive: false, chunk: 250, case_timeout_s: 30.0, what }],
         }
     }
@@ -385,7 +367,7 @@ impl Prop for C09 {
         Some(finish(staged, alt, expanded, n, ctx, expect, wasm_leg, vec!["mode:direct".into()], true, cx))
     }
     fn rule(&self) -> String {
-        "A case is (staged program, manual expansion, optional variant with every f!(args) and $(f(args)) exchanged, run length 1-8). The generator draws a staging context — (1) $(`e) in place, (2) `fn m(){ `e }` used as m!() / $(m()), (3) macros with 1-3 code parameters applied to quoted use-site code (optionally through another macro: function application at the macro stage), (4) macro-stage `let c = `e` with c spliced one or more times (in a macro function or in a `${ ... }` block), (5) numeric recursion building code (power-style, optionally returning the code of a function that the use site applies, optionally lifting the counter), (6) lift_f of macro-stage numbers (fractional, negative, tiny, large, not exactly representable in short decimal, -0/inf/NaN) — and stage-1 expressions over arithmetic, comparisons, builtins, let (single, tuple and nested tuple patterns), if, lambdas applied in place and let-bound, tuples/projection, self, mem and calls of pure and stateful stage-1 helpers. Binder names are globally unique, so the manual expansion is plain substitution computed by the harness over its own AST (never by the repository's expander). Oracle (VM): the expansion must compile and run (else discard); then the staged program must compile, and every output word of every sample must be bitwise equal (NaN = NaN) to the expansion's; for context (6) dsp's output must equal the number the harness computes with the same f64 operations; the exchanged variant (run for 2/3 of the cases) must produce the same output. Secondary, labelled c09:wasm-*: the same staged-vs-expansion comparison on the WASM backend for 1/10 of the cases, tuple-free programs only, only when the plain expansion runs there. Non-trivial = >= 2 distinct AST forms (at least one non-leaf) occur inside a quote; for (6) every case. Distinct by staged source + run length.".into()
+        "A case is (staged program, manual expansion, optional variant with every f!(args) and $(f(args)) exchanged, run length 1-8). The generator draws a staging context — (1) $(`e) in place, (2) `fn m(){ `e }` used as m!() / $(m()), (3) macros with 1-3 code parameters applied to quoted use-site code (optionally through another macro: function application at the macro stage), (4) macro-stage `let c = `e` with c spliced one or more times (in a macro function or in a `${ ... }` block), (5) numeric recursion building code (power-style, optionally returning the code of a function that the use site applies, optionally lifting the counter), (6) lift_f of macro-stage numbers (fractional, negative, tiny, large, not exactly representable in short decimal, -0/inf/NaN) — and stage-1 expressions over arithmetic, comparisons, builtins, let (single, tuple and nested tuple patterns), if, lambdas applied in place and let-bound, tuples/projection, assignment to a let-bound local, pipe application, now, samplerate, self, mem and calls of pure and stateful stage-1 helpers. Binder names are globally unique, so the manual expansion is plain substitution computed by the harness over its own AST (never by the repository's expander). Oracle (VM): the expansion must compile and run (else discard); then the staged program must compile, and every output word of every sample must be bitwise equal (NaN = NaN) to the expansion's; for context (6) dsp's output must equal the number the harness computes with the same f64 operations; the exchanged variant (run for 1/2 of the cases) must produce the same output. Secondary, labelled c09:wasm-*: the same staged-vs-expansion comparison on the WASM backend for 1/10 of the cases, tuple-free programs only, only when the plain expansion runs there. Non-trivial = >= 2 distinct AST forms (at least one non-leaf) occur inside a quote; for (6) every case. Distinct by staged source + run length.".into()
     }
     fn assumptions(&self) -> Vec<String> {
         vec![
@@ -398,7 +380,7 @@ impl Prop for C09 {
     fn required_classes(&self, _tier: Tier) -> Vec<&'static str> {
         vec![
             "compiled", "output-varies", "ctx:quote-splice", "ctx:macro-fn", "ctx:code-param", "ctx:let-code", "ctx:recursion", "ctx:lift", "q:binop", "q:compare", "q:if", "q:let", "q:let-tuple", "q:let-nested-tuple", "q:lambda", "q:apply", "q:let-fn",
-            "q:call", "q:stateful-call", "q:builtin", "q:self", "q:mem", "q:tuple", "q:proj", "q:splice", "use:bang", "use:splice", "site:fn", "site:dsp", "lift:fractional", "lift:negative", "lift:tiny", "lift:large", "lift:inexact-decimal", "wasm-leg-compared",
+            "q:call", "q:stateful-call", "q:builtin", "q:self", "q:mem", "q:tuple", "q:proj", "q:splice", "q:assign", "q:pipe", "q:now", "q:samplerate", "use:bang", "use:splice", "site:fn", "site:dsp", "lift:fractional", "lift:negative", "lift:tiny", "lift:large", "lift:inexact-decimal", "wasm-leg-compared",
         ]
     }
 }
